@@ -18,6 +18,13 @@ What follows the code, branch for branch:
                         homogeneous matrices in the order the code composes them)
 * `tpsFit/tpsApply`  — `ThinPlateSplines._build_coefficients/_apply` (kernel values are contract parameters)
 * `alphaBeta/pwaApply` — `alpha_beta`, `containment_from_alpha_beta`, `AbstractPWA._apply`
+* `fitScaleE/simFitE` — the same two fits with the float division by a zero-size source made explicit (`none` = the
+                        `inf`/`nan` matrix or the `LinAlgError` the code produces)
+* `tpsAffineCoef`    — the coefficient block of a purely affine spline
+* `gpa/gpaRec`       — `GeneralizedProcrustesAnalysis.__init__` / `_recursive_procrustes` (mean of the aligned
+                        sources, `scale_about_centre` to `initial_target_scale`, the `1e-6` test, `set_target` on every
+                        transform, `n_iterations > max_iterations`, the reset of `.target` when a target was given, the
+                        `ValueError` of `MultipleAlignment`); what `norm()`/`svd` answered in each pass are parameters
 * `construct`        — which point set ends up in `.target` after construction (`resync = true`: the constructor
                         ran `_sync_target_from_state`, as `AlignmentAffine`/`AlignmentRotation` do on the original tree)
 -/
@@ -277,5 +284,228 @@ def pwaTri (src : Nat → V2) (tris : List Tri) (p : V2) : Option Tri :=
 /-- `AbstractPWA._apply` at one point -/
 def pwaApply (src tgt : Nat → V2) (tris : List Tri) (p : V2) : Option V2 :=
   (pwaTri src tris p).map fun t => triMap src tgt t p
+
+/-! ### degenerate sizes: what the code does when a norm is zero
+
+`target.norm() / source.norm()` is a float division.  A zero-size source (all points coincide, `source.norm() == 0`)
+makes it `inf` (or `nan` when the target has zero size too): `AlignmentUniformScale` then carries a non-finite matrix,
+`AlignmentSimilarity(rotation=False)` an all-`nan` matrix and `AlignmentSimilarity(rotation=True)` raises
+`LinAlgError` from the SVD of a `nan` matrix.  None of them is a finite member of the family: the model answers
+`none`.  A zero-size *target* with a proper source is not an error: the factor is `0`. -/
+
+/-- `target.norm() / source.norm()`: `none` = the non-finite result of dividing by a zero-size source -/
+def normRatio (rT rS : Rat) : Option Rat := if rS = 0 then none else some (rT / rS)
+
+/-- `AlignmentUniformScale(source, target)` with the degenerate branch explicit -/
+def fitScaleE {d : Nat} (rT rS : Rat) : Option (HMat d) := (normRatio rT rS).map scaleH
+
+/-- `procrustes_alignment` with the degenerate branch explicit -/
+def simFitE {n d : Nat} (rotation : Bool) (rT rS : Rat) (R : Mat d d) (S T : Mat n d) : Option (HMat d) :=
+  (normRatio rT rS).map fun _ => simFit rotation rT rS R S T
+
+/-! ### thin-plate splines: the coefficients of a purely affine spline -/
+
+/-- zero bending rows; rows `n, n+1, n+2` = constant term, `x` coefficient, `y` coefficient of the affine map `H0` -/
+def tpsAffineCoef {n : Nat} (H0 : HMat 2) : Mat (n + 3) 2 :=
+  fun r c =>
+    if r.val < n then 0
+    else if r.val = n then H0 c.castSucc 2
+    else if r.val = n + 1 then H0 c.castSucc 0
+    else H0 c.castSucc 1
+
+/-! ### generalized Procrustes analysis (`GeneralizedProcrustesAnalysis`, `MultipleAlignment`)
+
+State is held in *tables* (`Array (Array Rat)`, the analogue of the numpy arrays the objects hold): a table is
+computed once where it is bound and only looked up afterwards; `ofArr (toArr X) = X` (`Props/C07.lean: ofArr_toArr`). -/
+
+abbrev Tab := Array (Array Rat)
+
+/-- what the two `norm()` calls and the `np.linalg.svd` call inside one `procrustes_alignment` returned -/
+structure SimWit (d : Nat) where
+  rT : Rat
+  rS : Rat
+  U : Mat d d
+  Vt : Mat d d
+
+instance {d : Nat} : Inhabited (SimWit d) := ⟨⟨1, 1, one, one⟩⟩
+
+/-- `AlignmentSimilarity(source, target, allow_mirror=mirror)` (rotation defaults to `True`) given the
+externals' answers `w` -/
+def simAlign {n d : Nat} (mirror : Bool) (w : SimWit d) (S T : Mat n d) : HMat d :=
+  simFit true w.rT w.rS (rotFit mirror w.U w.Vt) S T
+
+/-- `sum(pc.points for pc in pointclouds) / len(pointclouds)` -/
+def meanPts {k n d : Nat} (P : Fin k → Mat n d) : Mat n d := fun i j => (sumF fun a => P a i j) / (k : Rat)
+
+/-- `scale_about_centre(obj, s)` = `to_origin.compose_before(UniformScale(s)).compose_before(back_to_centre)` -/
+def scaleAboutCentreH {n d : Nat} (P : Mat n d) (s : Rat) : HMat d :=
+  mul (translationH (centroid P)) (mul (scaleH s) (translationH (negV (centroid P))))
+
+/-- the externals' answers consumed by one pass of `_recursive_procrustes`: `new_tgt.norm()` and one `SimWit`
+per `t.set_target(new_tgt)` -/
+structure GpaWit (k d : Nat) where
+  newNorm : Rat
+  sims : Fin k → SimWit d
+
+instance {k d : Nat} : Inhabited (GpaWit k d) := ⟨⟨1, fun _ => default⟩⟩
+
+/-- `delta_target < 1e-6`, squared (`np.linalg.norm` returns the non-negative root) -/
+def gpaTol2 : Rat := 1 / 1000000000000
+
+structure GpaState (k d : Nat) where
+  /-- `h_matrix` of `self.transforms[a]` -/
+  transforms : Array Tab
+  /-- `self.target` (the target every transform is currently aligned to) -/
+  target : Tab
+  nIter : Nat
+  converged : Bool
+  /-- ghost: the externals' answers the current transforms were computed from -/
+  sims : Fin k → SimWit d
+
+def GpaState.transform {k d : Nat} (st : GpaState k d) (a : Fin k) : HMat d := ofArr (st.transforms.getD a.val #[])
+def GpaState.tgt {k d : Nat} (n : Nat) (st : GpaState k d) : Mat n d := ofArr st.target
+
+/-- the mean of the aligned sources, rescaled about its centre to `initial_target_scale` -/
+def gpaNewTarget {k n d : Nat} (sources : Fin k → Mat n d) (initScale newNorm : Rat) (trs : Fin k → HMat d) : Tab :=
+  let meanA := toArr (meanPts fun a => applyH (trs a) (sources a))
+  let mean : Mat n d := ofArr meanA
+  let hA := toArr (scaleAboutCentreH mean (initScale / newNorm))
+  let h : HMat d := ofArr hA
+  toArr (applyH h mean)
+
+/-- `simAlign` evaluated the way the code evaluates it: the rotation matrix and every `compose_before_inplace`
+product are materialised once (`Props/C07.lean: ofArr_simAlignTab`: the table read back *is* `simAlign`) -/
+def simAlignTab {n d : Nat} (mirror : Bool) (w : SimWit d) (S T : Mat n d) : Tab :=
+  let Ra := toArr (rotFit mirror w.U w.Vt)
+  let R : Mat d d := ofArr Ra
+  let p0a := toArr (simP0 (w.rT / w.rS) S)
+  let p0 : HMat d := ofArr p0a
+  let p1a := toArr (mul (rotationH R) p0)
+  let p1 : HMat d := ofArr p1a
+  toArr (mul (translationH (centroid T)) p1)
+
+/-- all `AlignmentSimilarity(source_a, target)` as tables -/
+def gpaFitAll {k n d : Nat} (mirror : Bool) (sources : Fin k → Mat n d) (sims : Fin k → SimWit d) (T : Mat n d) :
+    Array Tab :=
+  Array.ofFn fun a : Fin k => simAlignTab mirror (sims a) (sources a) T
+
+/-- `_recursive_procrustes`; `fuel = max_iterations + 1 - n_iterations`, so `fuel = 0` is the code's own
+`n_iterations > max_iterations` exit.  `ws i` = the externals' answers during the pass with `n_iterations = i`. -/
+def gpaRec {k n d : Nat} (mirror : Bool) (sources : Fin k → Mat n d) (initScale : Rat) (ws : Nat → GpaWit k d) :
+    Nat → GpaState k d → GpaState k d
+  | 0, st => { st with converged := false }
+  | fuel + 1, st =>
+    let newT := gpaNewTarget sources initScale (ws st.nIter).newNorm st.transform
+    let newTgt : Mat n d := ofArr newT
+    if err2 (st.tgt n) newTgt < gpaTol2 then { st with converged := true }
+    else
+      gpaRec mirror sources initScale ws fuel
+        { transforms := gpaFitAll mirror sources (ws st.nIter).sims newTgt
+          target := newT
+          nIter := st.nIter + 1
+          converged := false
+          sims := (ws st.nIter).sims }
+
+structure GpaResult (k d : Nat) where
+  state : GpaState k d
+  /-- `gpa.target` as reported after construction -/
+  reported : Tab
+
+/-- `GeneralizedProcrustesAnalysis(sources, target, allow_mirror)`; `none` = the `ValueError` of
+`MultipleAlignment.__init__` (fewer than two sources and no target).  `w0`/`initScale` = the externals' answers
+during the constructor's own fits and `self.target.norm()`. -/
+def gpa {k n d : Nat} (mirror : Bool) (sources : Fin k → Mat n d) (target : Option (Mat n d))
+    (w0 : Fin k → SimWit d) (initScale : Rat) (maxIter : Nat) (ws : Nat → GpaWit k d) : Option (GpaResult k d) :=
+  if k < 2 ∧ target.isNone then none
+  else
+    let t0A := toArr (match target with
+      | some t => t
+      | none => meanPts sources)
+    let t0 : Mat n d := ofArr t0A
+    let st := gpaRec mirror sources initScale ws maxIter
+      { transforms := gpaFitAll mirror sources w0 t0, target := t0A, nIter := 1, converged := false, sims := w0 }
+    some { state := st
+           reported := match target with
+             | some _ => t0A          -- `if target is not None: self.target = initial_target`
+             | none => st.target }
+
+/-- `mean_alignment_error()` squared terms: the per-transform squared alignment errors -/
+def gpaErr2 {k n d : Nat} (sources : Fin k → Mat n d) (st : GpaState k d) (a : Fin k) : Rat :=
+  err2 (st.tgt n) (applyH (st.transform a) (sources a))
+
+/-! ### piecewise affine: an executable conformity certificate
+
+`pwaCertB src tris` checks, on the concrete triangle list an alignment works with, what the theorems about
+`pwaApply` need of it: every triangle is non-degenerate and any two triangles are either on the same vertices or
+separated (weakly) by the line through two of their vertices, their vertices on that line being separated in turn by
+a second such line which both touch only in vertices they share (two levels: triangles meeting in one vertex across
+a common line need the second).
+`Props/C07.lean: pwa_single_valued` proves that then all triangles containing a point map it to the same place. -/
+
+/-- twice the signed area of `(a, b, p)`: positive when `p` is to the left of `a → b`; affine in `p` -/
+def orient (a b p : V2) : Rat := (b.x - a.x) * (p.y - a.y) - (b.y - a.y) * (p.x - a.x)
+
+def triVerts (t : Tri) : List Nat := [t.1, t.2.1, t.2.2]
+def isVertexB (t : Tri) (u : Nat) : Bool := u == t.1 || u == t.2.1 || u == t.2.2
+
+/-- the Gram determinant `alpha_beta` divides by is not zero -/
+def nondegB (src : Nat → V2) (t : Tri) : Bool :=
+  let ij := V2.sub (src t.2.1) (src t.1)
+  let ik := V2.sub (src t.2.2) (src t.1)
+  V2.dot ij ij * V2.dot ik ik - V2.dot ij ik * V2.dot ij ik != 0
+
+/-- first level: the line through landmarks `a`, `b` has `t` on its non-negative and `t'` on its non-positive side -/
+def sep1 (src : Nat → V2) (a b : Nat) (t t' : Tri) : Bool :=
+  ((triVerts t).all fun x => decide (0 ≤ orient (src a) (src b) (src x))) &&
+  ((triVerts t').all fun x => decide (orient (src a) (src b) (src x) ≤ 0))
+
+/-- second level, among the vertices *on* that line: a second line `c`, `d` has those of `t` on its non-negative and
+those of `t'` on its non-positive side, and a vertex of `t` on both lines is also a vertex of `t'`
+(`c = d` gives the constant functional `0`: then every vertex of `t` on the first line must be shared) -/
+def sep2 (src : Nat → V2) (a b c d : Nat) (t t' : Tri) : Bool :=
+  ((triVerts t).all fun x =>
+    orient (src a) (src b) (src x) != 0 ||
+      (decide (0 ≤ orient (src c) (src d) (src x)) && (orient (src c) (src d) (src x) != 0 || isVertexB t' x))) &&
+  ((triVerts t').all fun x =>
+    orient (src a) (src b) (src x) != 0 || decide (orient (src c) (src d) (src x) ≤ 0))
+
+/-- candidate separating lines: the edges of both triangles, in both orientations -/
+def linesOf (t t' : Tri) : List (Nat × Nat) :=
+  [(t.1, t.2.1), (t.2.1, t.1), (t.2.1, t.2.2), (t.2.2, t.2.1), (t.1, t.2.2), (t.2.2, t.1),
+   (t'.1, t'.2.1), (t'.2.1, t'.1), (t'.2.1, t'.2.2), (t'.2.2, t'.2.1), (t'.1, t'.2.2), (t'.2.2, t'.1)]
+
+def pairOK (src : Nat → V2) (t t' : Tri) : Bool :=
+  (triVerts t).all (isVertexB t') ||
+  (linesOf t t').any fun ab =>
+    sep1 src ab.1 ab.2 t t' && ((t.1, t.1) :: linesOf t t').any fun cd => sep2 src ab.1 ab.2 cd.1 cd.2 t t'
+
+/-- the pair check is directional (the "shared" requirement is on the first triangle's vertices): a pair passes
+when it passes in either direction -/
+def pairOK2 (src : Nat → V2) (t t' : Tri) : Bool := pairOK src t t' || pairOK src t' t
+
+def pwaCertB (src : Nat → V2) (tris : List Tri) : Bool :=
+  tris.all (nondegB src) && tris.all fun t => tris.all fun t' => pairOK2 src t t'
+
+/-! ### thin-plate splines as coded: the truncated-SVD "inverse" -/
+
+def diagV {m : Nat} (v : Vec m) : Mat m m := fun i j => if i = j then v i else 0
+
+/-- `keep = _s.shape[0] - sum(_s < min_singular_val)` -/
+def tpsKeep {m : Nat} (s : Vec m) (minSing : Rat) : Nat :=
+  m - ((List.finRange m).filter fun i => decide (s i < minSing)).length
+
+/-- `1.0 / _s[:keep]`, padded with zeros for the dropped directions -/
+def tpsInvS {m : Nat} (s : Vec m) (keep : Nat) : Vec m := fun i => if i.val < keep then 1 / s i else 0
+
+/-- `_build_coefficients`: `inv_l = _u[:, :keep] · (1/_s[:keep, None] * _v[:keep, :])`, `coefficients = inv_l · yᵀ`
+(`U, s, Vt` = what `np.linalg.svd(self.l)` returned) -/
+def tpsFitSvd {n : Nat} (U : Mat (n + 3) (n + 3)) (s : Vec (n + 3)) (Vt : Mat (n + 3) (n + 3)) (minSing : Rat)
+    (T : Mat n 2) : Mat (n + 3) 2 :=
+  let keep := tpsKeep s minSing
+  mul U (fun l j => tpsInvS s keep l * mul Vt (tpsY T) l j)
+
+/-- the kept singular values are at least the threshold (a consequence of the descending order `svd` promises) -/
+def tpsKeptOKB {m : Nat} (s : Vec m) (minSing : Rat) : Bool :=
+  (List.finRange m).all fun i => !(decide (i.val < tpsKeep s minSing)) || decide (minSing ≤ s i)
 
 end MenpoModel.C07
